@@ -31,6 +31,18 @@ func GenStressWide(t *rapid.T) CaseS {
 	c := CaseS{Procs: rapid.SampledFrom([]int{2, 4, 8}).Draw(t, "procs")}
 	lo, hi := wideSlots()
 	ns := rapid.IntRange(lo, hi).Draw(t, "slots")
+	// two rarer shapes: a tree of more than 1024 (some: more than 4096) keys, so that a full scan visits thousands of
+	// items in one critical section; and a normal tree whose readers start with a deliberately slow full scan
+	slow := false
+	switch shape := rapid.IntRange(0, 47).Draw(t, "shape"); {
+	case shape >= 44: // (rapid prefers small values: the rare shapes sit at the top of the range)
+		ns = rapid.IntRange(1100, 2100).Draw(t, "manyslots")
+		if rapid.IntRange(0, 3).Draw(t, "evenmore") == 3 {
+			ns = 4200
+		}
+	case shape >= 34:
+		slow = true
+	}
 	holes := map[int]bool{}
 	for _, h := range drawSeq(t, "holes", 0, 12, func(t *rapid.T, i int) int { return rapid.IntRange(0, ns-1).Draw(t, "hole") }) {
 		holes[h] = true
@@ -81,8 +93,21 @@ func GenStressWide(t *rapid.T) CaseS {
 		c.Movers = append(c.Movers, Mover{SlotA: a, SlotB: b, Moves: rapid.IntRange(40, map[bool]int{false: 600, true: 3000}[thorough]).Draw(t, "moves")})
 	}
 	top := ns * stride
+	if slow {
+		c.SlowPasses = 1
+	}
 	for r, n := 0, rapid.IntRange(1, 3).Draw(t, "readers"); r < n; r++ {
-		c.Readers = append(c.Readers, drawSeq(t, "prog", atLeast(t, "progmin", 6, 1, 2, 4), 6, func(t *rapid.T, i int) WOp {
+		var first []WOp
+		if slow && r == 0 {
+			// a full scan whose filter burns 40, 60 or 100 million loop iterations in total (several tens of
+			// milliseconds on any current machine) while it holds the read lock; the movers wait behind it
+			first = []WOp{{
+				Kind:     rapid.SampledFrom([]string{"agte", "agt", "dlte", "dlt"}).Draw(t, "slowscan"),
+				NilPivot: true, Filter: filterAll, N: ns + 64,
+				Spin: rapid.SampledFrom([]int{40e6, 60e6, 100e6}).Draw(t, "slowtotal") / ns,
+			}}
+		}
+		c.Readers = append(c.Readers, append(first, drawSeq(t, "prog", atLeast(t, "progmin", 6, 1, 2, 4), 6, func(t *rapid.T, i int) WOp {
 			if rapid.IntRange(0, 9).Draw(t, "get") == 0 {
 				return WOp{Kind: "get", Key: rapid.IntRange(0, top-1).Draw(t, "getkey")}
 			}
@@ -106,23 +131,23 @@ func GenStressWide(t *rapid.T) CaseS {
 			// mostly beyond everything the tree can hold (static + 20 keys per writer + movers)
 			op.N = rapid.SampledFrom([]int{ns + 64, ns + 64, 1024, 2048, 4096, ns / 2, 300, 520}).Draw(t, "n")
 			return op
-		}))
+		})...))
 	}
 	return c
 }
 
-var wideRule = "rapid: tree.BTree (degree 2) preloaded with 300-700 static keys (thorough 990; all slots but 0-12 drawn holes), 1-3 movers (2-3 if there is no writer) that each toggle one item between a key in the lowest tenth and a key in the highest tenth of the key range with Update (40-600 moves, thorough 3000), 0-2 owner-partitioned writers spread over the whole range (programs of 1-20 calls, 1-4 times), 1-3 readers looping over 1-6 drawn calls until the writers are done: mostly full scans in both directions (pivot nil or just outside the range, sometimes inside; filter mostly all / even keys; n mostly above everything the tree can hold, sometimes len/2, 300, 520), a few Gets; spin barrier, GOMAXPROCS 2/4/8. Executor and oracle of the stress part: every scan strictly ordered, within bound and limit, filter-true, only stored items, every static key of the covered range present, and exactly one key of every mover pair whose two keys lie in the covered range (a scan is one atomic step, Update is one atomic step - no schedule may show the item twice or not at all); writers and movers see their own keys sequentially; end state = static + writers' models + movers, VerifCheck. Non-trivial: >= 2 writing goroutines and at least one read completed while writers were active; distinct = distinct case JSON"
+var wideRule = "rapid: tree.BTree (degree 2) preloaded with 300-700 static keys (thorough 990; one case in eight 1100-2100, a quarter of those 4200; all slots but 0-12 drawn holes; one case in twelve starts every reader with a full scan whose filter burns 60 or 100 million loop iterations in total, in its first 1-2 passes, so that the scan holds the read lock for tens of milliseconds while the movers queue up), 1-3 movers (2-3 if there is no writer) that each toggle one item between a key in the lowest tenth and a key in the highest tenth of the key range with Update (40-600 moves, thorough 3000), 0-2 owner-partitioned writers spread over the whole range (programs of 1-20 calls, 1-4 times), 1-3 readers looping over 1-6 drawn calls until the writers are done: mostly full scans in both directions (pivot nil or just outside the range, sometimes inside; filter mostly all / even keys; n mostly above everything the tree can hold, sometimes len/2, 300, 520), a few Gets; spin barrier, GOMAXPROCS 2/4/8. Executor and oracle of the stress part: every scan strictly ordered, within bound and limit, filter-true, only stored items, every static key of the covered range present, and exactly one key of every mover pair whose two keys lie in the covered range (a scan is one atomic step, Update is one atomic step - no schedule may show the item twice or not at all); writers and movers see their own keys sequentially; end state = static + writers' models + movers, VerifCheck. Non-trivial: >= 2 writing goroutines and at least one read completed while writers were active; distinct = distinct case JSON"
 
 var PartStressWide = &vkit.Part[CaseS]{
 	Property: Property, Name: "stress-wide",
 	Rule:  wideRule,
 	Quick: 150, Thorough: 300,
-	Gen: GenStressWide, Exec: execStress("stress-wide."),
+	Gen: GenStressWide, Exec: guarded("stress-wide.", execStress("stress-wide.")),
 }
 
 var PartRaceStressWide = &vkit.Part[CaseS]{
 	Property: Property, Name: "race-stress-wide",
 	Rule:  wideRule + " (binary built with -race)",
 	Quick: 40, Thorough: 120,
-	Gen: GenStressWide, Exec: execStress("race-stress-wide."),
+	Gen: GenStressWide, Exec: guarded("race-stress-wide.", execStress("race-stress-wide.")),
 }
